@@ -1,4 +1,5 @@
 import TinyFlux.Mirror.Ops
+import TinyFlux.Mirror.DbReindex
 /-!
 # C06 over the translated source: index maintenance as `tinyflux/index.py` has it, not only as the Model has it
 
@@ -51,6 +52,22 @@ theorem translated_methods_are_the_models (g : GSelf) (hg : GWF g) :
   · obtain ⟨g', h1, _, h3⟩ := remove_ok g r hg hr; exact ⟨g', h1, h3⟩
   · obtain ⟨g', h1, _, h3⟩ := update_ok g u hg; exact ⟨g', h1, h3⟩
   · obtain ⟨g', h1, _, h3⟩ := build_ok g pts; exact ⟨g', h1, h3⟩
+
+/-- `TinyFlux.reindex` of database.py as translated — what the `read_op` decorator calls when the index is invalid: it never
+    raises, leaves a valid index alone, and rebuilds an invalid one with the translated `Index.build` into a valid index that
+    is the Model's `Index.build` of the stored rows (up to the order of flattened tag keys): "any read leaves it valid" -/
+theorem translated_reindex (norm : Point → Point) (g : DSelf) :
+    ∃ g', DatabaseImpl.reindex g = .ok g' ∧ g'._storage = g._storage ∧ g'._auto_index = g._auto_index
+      ∧ (g._index._valid = true → g' = g)
+      ∧ (g._index._valid = false → GWF g'._index ∧ g'._index._valid = true
+            ∧ IdxEq (Mirror.abs g'._index) (Index.build g._storage._items)) :=
+  reindex_ok norm g
+
+/-- … which is the Model's `.reindex` step; `remove_all` is the Model's `.removeAll` -/
+theorem translated_reindex_is_the_models (norm : Point → Point) (g : DSelf) :
+    (∃ g', DatabaseImpl.reindex g = .ok g' ∧ StateEq (absDB norm g') ((absDB norm g).step .reindex).1)
+    ∧ (∃ g', DatabaseImpl.remove_all g = .ok g' ∧ absDB norm g' = ((absDB norm g).step .removeAll).1) :=
+  ⟨reindex_is_the_models norm g, remove_all_ok norm g⟩
 
 /-! ## non-vacuity: the hypotheses are met by concrete points, and by the state the translated `build` itself produces -/
 
